@@ -1,7 +1,7 @@
 /-
 C08 — property theorems (stage 1; extended below as the proofs are completed).
 -/
-import GoZero.C08.Proofs
+import GoZero.C08.ProofsTotal
 namespace GoZero.C08.Props
 open GoZero.C08 GoZero.C08.Spec
 
@@ -81,6 +81,29 @@ theorem accept_sound (c : Cfg) (hc : c.pinned = false) (ty : Ty) (j : J) (v : Va
   | slice t => simp at h
   | map t => simp at h
 
+/-- **no_panic** — no input makes the (repaired) unmarshaller panic: for every type whose tag texts do not make
+`parseKeyAndOptions` index an empty segment list (`tagsOK`; the only offender is a tag value that is a lone
+escape character), every configuration and every input document, the model never reaches a Go panic.
+(A panic of the real code is caught by the harness and reported as a violation.) -/
+theorem no_panic (c : Cfg) (hc : c.pinned = false) (ty : Ty) (hty : tagsOK ty = true) (j : J) :
+    unmarshal c ty j ≠ .error .panic := by
+  unfold unmarshal
+  cases ty with
+  | struct fs =>
+    cases j with
+    | obj m =>
+      have := NP_map Val.struct (NP_unmFields c hc fs m (by simpa [tagsOK] using hty))
+      simpa [NP] using this
+    | null => simp
+    | bool b => simp
+    | num s => simp
+    | str s => simp
+    | arr l => simp
+  | prim k => simp
+  | ptr t => simp
+  | slice t => simp
+  | map t => simp
+
 /-- non-vacuity: a nested type with every option kind, and an input that is accepted -/
 def exampleTy : Ty :=
   .struct (.cons "A".toList (some "a,optional".toList) (.prim (.int 8))
@@ -88,10 +111,17 @@ def exampleTy : Ty :=
           (.cons "C".toList (some "c,default=2.5,range=(0:10)".toList) (.prim (.float 64))
           (.cons "D".toList (some "d,options=foo|bar".toList) (.prim .string)
           (.cons "E".toList (some "e".toList)
-            (.struct (.cons "X".toList (some "x,string,range=[0:1]".toList) (.prim (.uint 8)) .nil)) .nil)))))
+            (.struct (.cons "X".toList (some "x,string,range=[0:1]".toList) (.prim (.uint 8)) .nil))
+          (.cons "S".toList (some "s,optional".toList) (.slice (.ptr (.prim (.int 16))))
+          (.cons "M".toList (some "m".toList) (.map (.struct (.cons "Y".toList (some "y,default=3".toList) (.prim (.int 64)) .nil)))
+           .nil)))))))
 def exampleIn : J :=
   .obj [("a".toList, .num "7".toList), ("b".toList, .num "5".toList), ("d".toList, .str "bar".toList),
-        ("e".toList, .obj [("x".toList, .str "1".toList)])]
+        ("e".toList, .obj [("x".toList, .str "1".toList)]),
+        ("s".toList, .arr [.num "1".toList, .null, .str "3".toList]),
+        ("m".toList, .obj [("k".toList, .obj []), ("a".toList, .obj [("y".toList, .num "9".toList)])])]
+
+example : tagsOK exampleTy = true := by decide +kernel
 
 example : (match unmarshal {} exampleTy exampleIn with | .ok v => satisfies {} exampleTy exampleIn v | _ => false) = true := by
   decide +kernel
